@@ -13,7 +13,8 @@ EXPLANATION = (
     "pending(), cmp_duration on None is Greater and compares in the direction d.cmp(other), zero durations map to "
     "None; (R5) after a timeout the task must not wait for the peer (= C08.R3).")
 EXPLANATION_ADDED = 'R2 also requires both samples of the timeout predicate to be taken after the last await; R3 also requires keepalive_interval to be applied before keepalive_timeout wherever both are set; (R6) the receive loop precedes the keepalive check in the biased select.'
-EXPLANATION = EXPLANATION + " Added while testing against seeded changes: " + EXPLANATION_ADDED
+EXPLANATION_ADDED2 = " R5 also takes the keepalive arm's teardown flag."
+EXPLANATION = EXPLANATION + " Added while testing against seeded changes: " + EXPLANATION_ADDED + EXPLANATION_ADDED2
 ASSUMPTIONS = ["tokio::time::Interval ticks every period; TimestampProvider::duration_since is monotone"]
 NOT_DECIDED = "the numeric bounds T and T+I, late pongs (timing)"
 THOROUGH_CONFIGS = ["mux-std-only"]
